@@ -236,3 +236,7 @@ def assumptions(prop):
         a.append("C20 is violated by the unchanged tree for >=2 re-waiting threads on one Lock (open known finding); the theorems "
                  "proved are the parked-is-disabled lemmas, the single-waiter case and the negation witness")
     return a
+
+
+for _k in list(RULE):      # RULE-EXTRA: what was added to the exploration after the rounds of seeded changes
+    RULE[_k] += '; plus: the M1 exploration as a LAYER, HOSTILE lock programs (a block held for 61 s..1 h, wait(till=<not a signal>), a wait for the mutex interrupted by an exception, a handler entering the lock while its thread is suspended in wait()), debug-mode locks, line-mode jobs; C20 also: a wall-clock idle-CPU probe on the real code'
